@@ -282,6 +282,8 @@ def run(chk):
     _symmap_rule(chk, full)
     _abstractinit_rule(chk, full)
     _frameroom_rule(chk, full)
+    _defpublish_rule(chk, full)
+    _funcdefnull_rule(chk, full)
 
 
 def _envvalid_rule(chk, prog):
@@ -1485,3 +1487,120 @@ def _frameroom_rule(chk, prog):
                 chk.violation(rule, "fiber.c", fn.name, "slotcount-sum-unchecked", x.loc,
                               "`%s` is computed in 64 bits but never compared with INT32_MAX before it is narrowed to a stack index" % x.text()[:60])
     chk.floor(rule, 2, n)
+
+
+# fields of a definition that unmarshal code outside unmarshal_one_def reads, and why reading the zero the field holds
+# while the definition is still being read is safe (None = it is not: the final value must be there before the first
+# nested value is read)
+DEFPUBLISH_ZERO_SAFE = {
+    "bytecode_length": "only an upper bound for a frame's pc: zero rejects every frame",
+    "bytecode": "only added to a pc that passed the bytecode_length bound",
+    "slotcount": "assigned from the header before anything nested is read (checked as an early field as well)",
+}
+
+
+def _defpublish_rule(chk, prog):
+    """unmarshal_one_def enters the definition in lookup_defs before it reads the constants, so a function among the
+    constants can refer back to the definition while it is unfinished.  Whatever other unmarshal code reads from a
+    definition must then already hold its final value, or a zero that makes the reader refuse."""
+    rule = "C10-DEFPUBLISH"
+    chk.rule(rule, "every definition field that other unmarshal code reads holds its final value before unmarshal_one_def reads the first nested value (or a zero the reader refuses)")
+    tu = prog.tus["marsh.c"]
+    byname = {f.name: f for f in tu.funcs.values()}
+    d = byname.get("unmarshal_one_def")
+    if d is None:
+        raise AnalysisBroken("unmarshal_one_def not found")
+    chk.analysed(d)
+    # readers: def fields read in the unmarshal half of marsh.c outside unmarshal_one_def
+    readers = {}
+    for fn in tu.funcs.values():
+        if fn is d or not (fn.name.startswith("unmarshal_one") or fn.name == "unmarshal_one"):
+            continue
+        for x in fn.nodes:
+            if x.k == "mem" and x.rec == "JanetFuncDef" and not (x.parent is not None and x.parent.k == "asg" and x.parent.kids[0] is x):
+                readers.setdefault(x.field, []).append((fn, x))
+    if "environments_length" not in readers:
+        raise AnalysisBroken("no unmarshal code reads a definition's environments_length any more: re-derive the reader table")
+    # position of the publication and of the first nested read in unmarshal_one_def, in source order on the straight-line spine
+    order = {id(x): i for i, x in enumerate(d.nodes)}
+    pub = [c for c in d.calls("janet_v_push") if "lookup_defs" in c.text()] or \
+          [x for x in d.nodes if x.k in ("call", "asg") and "lookup_defs" in x.text() and x.k == "asg"]
+    if not pub:
+        pub = [x for x in d.nodes if "lookup_defs" in x.text() and x.k in ("asg", "call")]
+    if not pub:
+        raise AnalysisBroken("unmarshal_one_def: publication into lookup_defs not found")
+    nested = [c for c in d.nodes if c.k == "call" and c.callee in ("unmarshal_one", "unmarshal_one_def")]
+    if not nested:
+        raise AnalysisBroken("unmarshal_one_def: no nested unmarshal call")
+    first = min(order[id(c)] for c in nested)
+    for field in sorted(readers):
+        chk.instance(rule)
+        writes = [x for x in d.nodes if x.k == "asg" and x.kids[0].k == "mem" and x.kids[0].field == field and x.kids[0].rec == "JanetFuncDef"]
+        final_early = [w for w in writes if order[id(w)] < first and not (strip_casts(w.kids[1]).k == "int" and strip_casts(w.kids[1]).v == 0)
+                       and not strip_casts(w.kids[1]).text() in ("NULL", "((void *)0)")]
+        where = ", ".join(sorted(set(fn.name for fn, _ in readers[field])))
+        if final_early:
+            chk.ok(rule, "%s: final value assigned before the first nested read (read by %s)" % (field, where))
+        elif DEFPUBLISH_ZERO_SAFE.get(field):
+            zero = [w for w in writes if order[id(w)] < first]
+            if zero:
+                chk.ok(rule, "%s: zero until finished, %s (read by %s)" % (field, DEFPUBLISH_ZERO_SAFE[field], where))
+            else:
+                chk.violation(rule, "marsh.c", "unmarshal_one_def", "unset:" + field, d.loc,
+                              "`def->%s` is read by %s but is not even zeroed before the first nested value is read" % (field, where))
+        else:
+            fn, x = readers[field][0]
+            chk.violation(rule, "marsh.c", "unmarshal_one_def", "late:" + field, (writes[-1].loc if writes else d.loc),
+                          "`def->%s` receives its value only after nested values have been read, but %s reads it (%s) from a definition "
+                          "that a nested function may reference while it is unfinished: the comparison is made against the placeholder "
+                          "and a function whose envs[] does not match its definition is accepted" % (field, fn.name, x.loc))
+    chk.floor(rule, 3, len(readers))
+
+
+def _funcdefnull_rule(chk, prog):
+    """LB_FUNCTION enters a function in the lookup table with def == NULL and fills it in after the definition has
+    been read; a reference inside that definition yields the function in that state.  Unmarshal code that takes a
+    function out of a nested value must test its def before using it."""
+    rule = "C10-FUNCDEFNULL"
+    chk.rule(rule, "unmarshal code that dereferences the definition of a function it has just read tests it for NULL first")
+    tu = prog.tus["marsh.c"]
+    n = 0
+    for fn in tu.funcs.values():
+        if not fn.name.startswith("unmarshal_one"):
+            continue
+        # locals assigned from <function>->def
+        defvars = set()
+        for x in fn.nodes:
+            if x.k in ("asg", "vardecl"):
+                rhs = x.kids[-1] if x.kids else None
+                if rhs is not None and strip_casts(rhs).k == "mem" and strip_casts(rhs).field == "def" and strip_casts(rhs).rec == "JanetFunction":
+                    defvars.add(x.kids[0].name if x.k == "asg" and x.kids[0].k == "ref" else x.name)
+        defvars.discard(None)
+        uses = []
+        for x in fn.nodes:
+            if x.k == "mem" and x.rec == "JanetFuncDef":
+                b = strip_casts(x.kids[0])
+                if (b.k == "ref" and b.name in defvars) or (b.k == "mem" and b.field == "def" and b.rec == "JanetFunction"):
+                    uses.append(x)
+        if not uses:
+            continue
+        chk.analysed(fn)
+        IN, T = flow.condition_facts(fn)
+        seen = {}
+        for x, S in flow.states_at(fn, IN, T):
+            for u in uses:
+                if x is u or any(y is u for y in x.walk()):
+                    base = strip_casts(u.kids[0]).text()
+                    ok = bool(S) and all(any(op == "!=" and ((l == base and r in ("NULL", "((void *)0)", "0", "")) or (r == base and l in ("NULL", "((void *)0)", "0")))
+                                             for (op, l, r, toks, ln, rn) in ps) for ps in S)
+                    seen[id(u)] = seen.get(id(u), True) and ok
+        for u in uses:
+            n += 1
+            chk.instance(rule)
+            if seen.get(id(u)):
+                chk.ok(rule, "%s: `%s` after a NULL test" % (fn.name, u.text()))
+            else:
+                chk.violation(rule, "marsh.c", fn.name, "unchecked:" + u.text(), u.loc,
+                              "`%s` dereferences the definition of a function taken from a nested value without a NULL test: a reference "
+                              "to the function that is still being read has def == NULL (segfault inside unmarshal)" % u.text())
+    chk.floor(rule, 3, n)
